@@ -30,8 +30,12 @@ def _child_main(machine, case, wfd, jbuf, quiet, timeout):
         else:
             import faulthandler
             faulthandler.enable()
+        # budget in CPU time of this run (independent of how loaded the machine is); a wall-clock alarm ten times as long
+        # only catches a run that sleeps or dead-locks without using the CPU
+        signal.signal(signal.SIGPROF, signal.SIG_DFL)
+        signal.setitimer(signal.ITIMER_PROF, float(timeout))
         signal.signal(signal.SIGALRM, signal.SIG_DFL)
-        signal.alarm(int(timeout))
+        signal.alarm(int(timeout) * 10)
         res = execute_case(machine, case, journal=lambda j: pack_step(jbuf, j))
         data = json.dumps(res).encode()
     except BaseException as e:   # KeyboardInterrupt-like injected faults must not escape
@@ -73,9 +77,9 @@ def run_forked(machine, case, quiet=True, timeout=None):
         sig = os.WTERMSIG(status)
         nops = len(case["ops"])
         opkind = case["ops"][step]["op"] if 0 <= step < nops else ("finish" if step >= nops else "start")
-        if sig == signal.SIGALRM:
+        if sig in (signal.SIGPROF, signal.SIGALRM):
             return {"status": "violation", "class": ["hang", opkind], "step": step,
-                    "detail": "run exceeded %ss wall budget at op %d" % (timeout, step)}
+                    "detail": "run exceeded its budget (%ss CPU time, or ten times that in wall time) at op %d" % (timeout, step)}
         if sig == signal.SIGKILL:
             return {"status": "harness-error", "step": step, "detail": "child SIGKILLed (OOM?)"}
         return {"status": "violation", "class": ["crash", opkind], "step": step,
